@@ -29,7 +29,31 @@ type iterParams struct {
 	Slow    int    `json:"slow,omitempty"`  // creation index of a goroutine that is held back (1 search, 2 quit-cancel, 3 consumer)
 	Until   int    `json:"until,omitempty"` // ... until this many steps after the halt instant
 	HaltOn  int    `json:"halt_on,omitempty"` // the consumer itself calls Halt as soon as it has received this depth (a GUI that stops on seeing depth N)
+	Clean   bool   `json:"clean,omitempty"`   // C12: when Halt returns the board is back in its initial state and the table is never touched again
 }
+
+// watchTT reports every use of the table after *after has been set.
+type watchTT struct {
+	inner search.TranspositionTable
+	after *bool
+	late  *[]string
+}
+
+func (w *watchTT) note(what string) {
+	if *w.after && len(*w.late) < 4 {
+		*w.late = append(*w.late, fmt.Sprintf("%s at step %d by %s", what, vs.Step(), vs.LastRun()))
+	}
+}
+func (w *watchTT) Read(h board.ZobristHash) (search.Bound, int, eval.Score, board.Move, bool) {
+	w.note("Read")
+	return w.inner.Read(h)
+}
+func (w *watchTT) Write(h board.ZobristHash, bound search.Bound, ply, depth int, score eval.Score, move board.Move) bool {
+	w.note("Write")
+	return w.inner.Write(h, bound, ply, depth, score, move)
+}
+func (w *watchTT) Size() uint64  { return w.inner.Size() }
+func (w *watchTT) Used() float64 { return w.inner.Used() }
 
 func iterRoot() search.Search {
 	return search.AlphaBeta{Eval: search.Leaf{Eval: eval.Material{}}}
@@ -100,6 +124,8 @@ func buildIter(params json.RawMessage) explore.Scenario {
 		var halted *search.PV
 		seenAtHalt, haltCalled := 0, false
 		closed := false
+		haltReturned, dirtyBoard := false, ""
+		var lateTT []string
 		main := func() {
 			ctx := context.Background()
 			b, err := fen.NewBoard(p.FEN)
@@ -117,6 +143,18 @@ func buildIter(params json.RawMessage) explore.Scenario {
 			if p.Table {
 				tt = search.NewTranspositionTable(ctx, 1<<12)
 			}
+			if p.Clean {
+				tt = &watchTT{inner: tt, after: &haltReturned, late: &lateTT}
+			}
+			ply0, hash0 := b.Ply(), b.Hash()
+			returned := func() { // a caller's Halt has just returned
+				if p.Clean {
+					if b.Ply() != ply0 || b.Hash() != hash0 {
+						dirtyBoard = fmt.Sprintf("ply %d (was %d), position %v", b.Ply(), ply0, b.Position())
+					}
+					haltReturned = true
+				}
+			}
 			l := &searchctl.Iterative{Root: iterRoot()}
 			h, out := l.Launch(ctx, b, tt, eval.Random{}, opt)
 			vs.GoNamed("consumer", func() {
@@ -131,18 +169,24 @@ func buildIter(params json.RawMessage) explore.Scenario {
 						seenAtHalt = pv.Depth
 						haltCalled = true
 						r := h.Halt()
+						returned()
 						halted = &r
 					}
 				}
 			})
-			if p.HaltAt >= 0 {
+			if p.HaltAt >= 0 || p.HaltAt == -2 {
 				vs.GoNamed("halter", func() {
-					vs.WaitStep("halt-release", p.HaltAt)
+					if p.HaltAt == -2 {
+						vs.WaitLazy("halt-release")
+					} else {
+						vs.WaitStep("halt-release", p.HaltAt)
+					}
 					if len(got) > 0 {
 						seenAtHalt = got[len(got)-1].Depth
 					}
 					haltCalled = true
 					pv := h.Halt()
+					returned()
 					halted = &pv
 				})
 			}
@@ -158,6 +202,16 @@ func buildIter(params json.RawMessage) explore.Scenario {
 			}
 			if len(s.Panics) > 0 {
 				o.Violation, o.Msg = "C15/panic "+panicSig(s.Panics[0]), shortPanic(s.Panics[0])
+				return o
+			}
+			if dirtyBoard != "" {
+				o.Violation = "C12/board-in-use-after-halt"
+				o.Msg = "Halt returned while the halted search was still playing moves on the board: " + dirtyBoard
+				return o
+			}
+			if len(lateTT) > 0 {
+				o.Violation = "C12/table-touched-after-halt"
+				o.Msg = "the halted search used the table after Halt had returned: " + strings.Join(lateTT, "; ")
 				return o
 			}
 			check := func(what string, pv search.PV) (string, string) {
